@@ -220,3 +220,19 @@ class Model:
         other.obj = r[1]
         other._sessions = self._sessions
         return other
+
+    def again(self, chunk_size, keep_chunks):
+        """a new file object of the same class on the *same* URL, created
+        later in the same process (module- and class-level state of the
+        first one is still there; the session is the one of the host)"""
+        other = Model.__new__(Model)
+        other.it, other.env, other.cls = self.it, self.env, self.cls
+        other.session = self.session
+        other._sessions = self._sessions
+        url = self.session.url
+        r = L.run(lambda: self.cls(url, chunk_size=chunk_size,
+                                   keep_chunks=keep_chunks))
+        if r[0] != "ok":
+            raise AnalysisError(f"HTTPFile(...) cannot be evaluated: {r}")
+        other.obj = r[1]
+        return other
